@@ -18,6 +18,10 @@ Emitted (consumed by `PytaskModel/Clean.lean`):
   gitRootResolved          : Bool          -- whether get_root normalises `cwd / cdup` (resolve()/normpath)
   gitKnownExtra            : List String   -- extra component(s) added below git_root to the known paths (".git")
   cleanKnowsProvisional    : Bool          -- whether _yield_paths_from_task also yields what a provisional node collects
+  rootStopRules            : List (String × String)  -- config_utils.find_project_root_and_config: per directory, in order,
+                                                     -- (entry name, test): ("pyproject.toml", "section") = exists and has the
+                                                     -- pytask section -> root and config; (".git", "exists"|"is_dir"|"is_file") -> root
+  rootStartsAtParentOfFile : Bool          -- a common ancestor that is a file is replaced by its directory
 """
 from __future__ import annotations
 
@@ -297,6 +301,67 @@ def section() -> list[str]:
     if not any(c.endswith(".parents)") and ".update(" in c for c in calls):
         raise ExtractError("_collect_all_paths_known_to_pytask: parents of the known files are no longer added")
 
+    # --- config_utils.find_project_root_and_config: where the upward search stops
+    cu = extract._parse("config_utils.py")
+    fr = extract._func(cu, "find_project_root_and_config")
+    fsrc = ast.unparse(fr)
+    loops = [n for n in ast.walk(fr) if isinstance(n, ast.For)]
+    if len(loops) != 1 or not isinstance(loops[0].target, ast.Name) or loops[0].orelse:
+        raise ExtractError("find_project_root_and_config: expected one loop over the parent directories")
+    loop = loops[0]
+    par = loop.target.id
+    it = ast.unparse(loop.iter)
+    seq = None
+    for n in ast.walk(fr):
+        if isinstance(n, ast.Assign) and len(n.targets) == 1 and ast.unparse(n.targets[0]) == it:
+            seq = ast.unparse(n.value)
+    if seq != "[common_ancestor, *list(common_ancestor.parents)]" and it != "[common_ancestor, *common_ancestor.parents]" \
+            and seq != "[common_ancestor, *common_ancestor.parents]":
+        raise ExtractError(f"find_project_root_and_config: the search does not go from the common ancestor upwards ({seq or it})")
+    local: dict[str, str] = {}
+    stop_rules: list[tuple[str, str]] = []
+
+    def joined(e):
+        """name of the entry `parent.joinpath(<name>)` / `parent / <name>` (through a local), else None"""
+        u = ast.unparse(e)
+        u = local.get(u, u)
+        for pre, post in ((f"{par}.joinpath('", "')"), (f"{par} / '", "'")):
+            if u.startswith(pre) and u.endswith(post):
+                return u[len(pre):-len(post)]
+        return None
+
+    for st in loop.body:
+        if isinstance(st, ast.Assign) and len(st.targets) == 1 and isinstance(st.targets[0], ast.Name):
+            local[st.targets[0].id] = ast.unparse(st.value)
+            continue
+        if isinstance(st, ast.Expr) and isinstance(st.value, ast.Constant):
+            continue
+        if not (isinstance(st, ast.If) and not st.orelse and isinstance(st.test, ast.Call) and isinstance(st.test.func, ast.Attribute)
+                and not st.test.args and st.test.func.attr in ("exists", "is_dir", "is_file")):
+            raise ExtractError(f"find_project_root_and_config: statement in the search loop not recognised: {ast.unparse(st)[:80]}")
+        entry = joined(st.test.func.value)
+        if entry is None:
+            raise ExtractError(f"find_project_root_and_config: test not about an entry of the directory: {ast.unparse(st.test)}")
+        body = [b for b in st.body if not (isinstance(b, ast.Expr) and isinstance(b.value, ast.Constant))]
+        if len(body) == 1 and isinstance(body[0], ast.Try):
+            tr = body[0]
+            ok = ([ast.unparse(x) for x in tr.body] == [f"read_config({ast.unparse(st.test.func.value)})"]
+                  and any(ast.unparse(h.type) == "KeyError" and [ast.unparse(x) for x in h.body] == ["pass"] for h in tr.handlers if h.type)
+                  and tr.orelse and isinstance(tr.orelse[-1], ast.Break) and not tr.finalbody
+                  and "root = config_path.parent" in [ast.unparse(x) for x in tr.orelse]
+                  and f"config_path = {ast.unparse(st.test.func.value)}" in [ast.unparse(x) for x in tr.orelse]
+                  and st.test.func.attr == "exists")
+            if not ok:
+                raise ExtractError("find_project_root_and_config: the configuration-file rule is not recognised")
+            stop_rules.append((entry, "section"))
+        elif [ast.unparse(b) for b in body] == [f"root = {par}", "break"]:
+            stop_rules.append((entry, st.test.func.attr))
+        else:
+            raise ExtractError(f"find_project_root_and_config: stop rule not recognised: {ast.unparse(st)[:100]}")
+    if "if root is None:\n        root = common_ancestor" not in fsrc or "return (root, config_path)" not in fsrc:
+        raise ExtractError("find_project_root_and_config: fallback `root = common_ancestor` / return not recognised")
+    start_parent = "if common_ancestor.is_file():\n        common_ancestor = common_ancestor.parent" in fsrc
+
     # --- control structure of from_path / listing / known paths / command loop (namespace Cln); the arms of
     #     _yield_paths_from_task decide whether provisional nodes are resolved
     import extract_cleangen
@@ -320,6 +385,8 @@ def section() -> list[str]:
         f"def gitRootResolved : Bool := {lean_bool(resolved)}",
         f"def gitKnownExtra : List String := {strs(extra)}",
         f"def cleanKnowsProvisional : Bool := {lean_bool(knows_provisional)}",
+        "def rootStopRules : List (String × String) := [" + ", ".join(f"({lean_str(a)}, {lean_str(b)})" for a, b in stop_rules) + "]",
+        f"def rootStartsAtParentOfFile : Bool := {lean_bool(start_parent)}",
         "",
     ] + gen
 
